@@ -281,6 +281,12 @@ func c14sites(c *Ctx) {
 		// every severity must pass: Always admits all
 		target.SetLevel(slog.AlwaysLevel)
 		via := "SetSkip"
+		if idx%2 == 1 && (cl.skip == 0 || cl.setFn || cl.kind == "default") {
+			// the skip count had another value before (a facade that sets it and puts it back): only the current one counts
+			target.SetSkip(cl.skip + 1 + idx%3)
+			via = "SetSkip(other) then SetSkip"
+			target.SetSkip(cl.skip)
+		}
 		if cl.skip > 0 {
 			if cl.setFn || cl.kind == "default" {
 				target.SetSkip(cl.skip)
